@@ -133,7 +133,7 @@ def audit_assumptions(prop):
 def lint_sources():
     """no Admitted / admit / Axiom / Parameter / ... anywhere in the development"""
     bad = []
-    for f in coq_files() + ['Extract/Extract.v']:
+    for f in coq_files():
         txt = (COQ / f).read_text()
         txt = re.sub(r'\(\*.*?\*\)', lambda m: re.sub(r'[^\n]', ' ', m.group(0)), txt, flags=re.S)
         for i, line in enumerate(txt.split('\n'), 1):
@@ -162,36 +162,56 @@ def _hash_files(paths):
     return h.hexdigest()
 
 
+def extract_parts():
+    imports, names = [], []
+    for f in sorted((COQ / 'Extract' / 'parts').glob('*.part')):
+        for line in f.read_text().split('\n'):
+            w = line.split()
+            if len(w) == 2 and w[0] == 'IMPORT' and w[1] not in imports:
+                imports.append(w[1])
+            if len(w) == 2 and w[0] == 'NAME' and w[1] not in names:
+                names.append(w[1])
+    return imports, names
+
+
 def model_targets():
-    """the .vo files the extraction needs: everything Extract.v imports"""
-    txt = (COQ / 'Extract' / 'Extract.v').read_text()
-    mods = re.findall(r'\b((?:Gen|Lib|Spec|Model)\.[A-Za-z0-9_]+)', txt)
-    return sorted(set(m.replace('.', '/') + '.vo' for m in mods))
+    """the .vo files the extraction needs: everything the Extract parts import"""
+    imports, _ = extract_parts()
+    return sorted(set(m.replace('.', '/') + '.vo' for m in imports))
 
 
 def build_oracle(timeout=1200):
     d = BUILD / 'ocaml'
     d.mkdir(parents=True, exist_ok=True)
+    plugins = sorted((ROOT / 'ocaml').glob('o_*.ml'))
     srcs = [COQ / f for f in coq_files() if not f.startswith(('Proofs/', 'Properties/'))] + \
-           [COQ / 'Extract' / 'Extract.v', ROOT / 'ocaml' / 'oracle.ml']
+           sorted((COQ / 'Extract' / 'parts').glob('*.part')) + [ROOT / 'ocaml' / 'oracle.ml', ROOT / 'ocaml' / 'ocommon.ml'] + plugins
     stamp = d / 'stamp'
     h = _hash_files(srcs)
     if stamp.exists() and stamp.read_text() == h and (d / 'oracle').exists():
         return True, 'oracle up to date'
-    rc, out = sh(['coqc', '-Q', str(COQ), 'WebP', str(COQ / 'Extract' / 'Extract.v')], cwd=d, timeout=timeout)
+    imports, names = extract_parts()
+    ev = ['(* GENERATED by tools/vflib.py from coq/Extract/parts/*.part *)',
+          'From Coq Require Import ZArith NArith List Extraction ExtrOcamlBasic.',
+          'From WebP Require Import %s.' % ' '.join(imports),
+          'Extraction Language OCaml.',
+          'Extraction "oracle_gen.ml"\n  %s.' % '\n  '.join(names)]
+    (d / 'Extract.v').write_text('\n'.join(ev) + '\n')
+    rc, out = sh(['coqc', '-Q', str(COQ), 'WebP', 'Extract.v'], cwd=d, timeout=timeout)
     if rc != 0:
         return False, 'extraction failed:\n' + out
-    shutil.copy(ROOT / 'ocaml' / 'oracle.ml', d / 'oracle.ml')
-    rc, out2 = sh('ocamlfind ocamlopt -w -a -package unix -linkpkg oracle_gen.mli oracle_gen.ml oracle.ml -o oracle',
-                  cwd=d, timeout=timeout)
+    shutil.copy(ROOT / 'ocaml' / 'ocommon.ml', d / 'ocommon.ml')
+    mods = []
+    for p in plugins:
+        shutil.copy(p, d / p.name)
+        mods.append(p.stem[0].upper() + p.stem[1:])
+    main = (ROOT / 'ocaml' / 'oracle.ml').read_text().replace('(*HANDLERS*)', '; '.join('%s.eval' % m for m in mods))
+    (d / 'oracle.ml').write_text(main)
+    rc, out2 = sh('ocamlfind ocamlopt -w -a -package unix -linkpkg oracle_gen.mli oracle_gen.ml ocommon.ml %s oracle.ml -o oracle'
+                  % ' '.join(p.name for p in plugins), cwd=d, timeout=timeout)
     if rc != 0 or not (d / 'oracle').exists():
         return False, 'ocaml build failed:\n' + out2
     stamp.write_text(h)
-    # Extract.v leaves a .vo/.glob next to the source; remove them
-    for ext in ('.vo', '.glob', '.vok', '.vos'):
-        p = COQ / 'Extract' / ('Extract' + ext)
-        if p.exists():
-            p.unlink()
     return True, out + out2
 
 
